@@ -274,6 +274,31 @@ def run(ctx):
         nops = rng.randint(1, 6)
         alive = True
         for j in range(nops):
+            if rng.random() < 0.15:
+                # the signal is inspected (stop_time, contains), then RE-LABELLED through its public setters, then inspected again as the
+                # same object: stop_time = start_time + len / sample_rate and the half-open extent must follow the new labels
+                try:
+                    _ = z.stop_time, [bool(z.contains(t)) for t in probes_for(z, rng)]
+                    how = rng.choice(['start+1h', 'rate/4', 'start=None', 'start=given'])
+                    if how == 'start+1h' and z.start_time is not None:
+                        z.start_time = z.start_time + 3600 * u.s
+                    elif how == 'rate/4':
+                        z.sample_rate = z.sample_rate / 4
+                    elif how == 'start=None':
+                        z.start_time = None
+                    else:
+                        z.start_time = Time('2021-06-07T08:09:10.25', precision=9)
+                    zz = z
+                    y = one_step(zz, 'relabel:' + how, '(OSlice None None None)', (lambda: zz), dict(how=how), p)
+                    if y is None:
+                        alive = False
+                        break
+                    terms.append('(OSlice None None None)')
+                    z0, terms = z, []                    # the pipeline theorem is stated from the first ledger: restart it here
+                except Exception as e:
+                    ctx.fail('relabel_raised', dict(cls=cls, len=len(z), pipeline_pos=j), impl=repr(e))
+                    alive = False
+                    break
             malformed = rng.random() < 0.08
             kind, term, thunk, info = gen_op(rng, z, malformed)
             y = one_step(z, kind, term, thunk, info, p)
